@@ -45,6 +45,9 @@ def run(ctx: Ctx):
     from .common import generic_lints
 
     generic_lints(ctx)
+    from .common import dependency_footprints
+
+    dependency_footprints(ctx)
 
 
 def table_proportions(ctx: Ctx):
